@@ -368,6 +368,9 @@ done:
 		key = kv["stream"][:min(len(kv["stream"]), 64)] + "/" + kv["ops"]
 	}
 	scn := fmt.Sprintf("xr id=%s v=fixed recs=%s segs=%s ops=%s", id, rstr, sstr, joinOr(scnOps, "|"))
+	if kv["nomodel"] == "1" {
+		scn = "" // int64 wrap-around is outside the model (offsets are unbounded integers there)
+	}
 	o.Emit(id, line, scn, joinOr(implRes, "|"), key)
 }
 
@@ -476,6 +479,17 @@ func genXR(r *Rand, tier string, emit func(string)) {
 		}
 		for _, ops := range []string{"R:100000|R:100000|R:1", fmt.Sprintf("S:%d:0|R:50|R:100000|R:5", c-20), fmt.Sprintf("S:%d:0|R:9|S:-30:2|R:100", c)} {
 			emit(fmt.Sprintf("xr stream=%s plain=%s ops=%s", hx(s), hx(p), ops))
+		}
+	}
+	// targets that overflow int64: bytes.Reader rejects them and keeps its position
+	{
+		data := r.Bytes(700)
+		s, p, _ := buildXflate(xwCfg{level: 6, chunk: 100, index: 0}, []xwOp{{kind: 'W', data: data}})
+		for _, ops := range []string{
+			"S:9223372036854775807:0|S:1:1|R:5", "S:9223372036854775807:2|R:5", "R:30|S:9223372036854775800:1|R:5",
+			"S:9223372036854775807:0|S:9223372036854775807:1|S:3:0|R:4", "S:-9223372036854775808:1|R:3", "S:-9223372036854775808:2|R:3",
+		} {
+			emit(fmt.Sprintf("xr nomodel=1 stream=%s plain=%s ops=%s", hx(s), hx(p), ops))
 		}
 	}
 	streams := genXrStreams(r, nStreams, 300)
